@@ -287,7 +287,7 @@ func runCase(mode string, shape []field, prefix string, fm map[string]string) li
 	var st *setec.Store
 	var applyErr error
 	logf := func(string, ...any) {}
-	if mode == "apply" {
+	if mode == "apply" || mode == "applyc" {
 		var err error
 		st, err = setec.NewStore(context.Background(), setec.StoreConfig{Client: s, Secrets: []string{"base"}, AllowLookup: true, PollInterval: -1, Logf: logf})
 		if err != nil {
@@ -302,6 +302,19 @@ func runCase(mode string, shape []field, prefix string, fm map[string]string) li
 			return ln
 		}
 		ln.Names = append(ln.Names, fs.Secrets()...)
+		actx := context.Background()
+		if mode == "applyc" {
+			// the secrets that exist are already known to the store (looked up before); Apply then runs under a context that is
+			// already over: the lookups of the missing ones fail, the fields of the known ones are filled all the same
+			for _, n := range fs.Secrets() {
+				if fm[n] != "missing" {
+					st.LookupSecret(context.Background(), n)
+				}
+			}
+			c, cancel := context.WithCancel(context.Background())
+			cancel()
+			actx = c
+		}
 		// what a caller does with the list it was handed (sorting it for a StoreConfig, say) is its own business
 		if got := fs.Secrets(); len(got) > 1 {
 			for i, j := 0, len(got)-1; i < j; i, j = i+1, j-1 {
@@ -309,7 +322,7 @@ func runCase(mode string, shape []field, prefix string, fm map[string]string) li
 			}
 			got[0] = "scribbled/" + got[0]
 		}
-		applyErr = fs.Apply(context.Background(), st)
+		applyErr = fs.Apply(actx, st)
 	} else {
 		// every secret the fields name exists, so construction never has to wait; the deadline only keeps a
 		// wrongly requested (non-existent) secret from retrying forever
@@ -454,6 +467,9 @@ func TestFields(t *testing.T) {
 				for _, f2 := range forms {
 					fm := map[string]string{join(p, "n1"): f1, join(p, "n2"): f2}
 					emit(runCase("apply", sh, p, fm))
+					if f1 == "missing" || f2 == "missing" {
+						emit(runCase("applyc", sh, p, fm))
+					}
 					if f1 != "missing" && f2 != "missing" && slowConstructions < 3 {
 						emit(runCase("newstore", sh, p, fm))
 					}
